@@ -419,6 +419,10 @@ func (g *gen) floodEpisode() {
 			g.h.Q(nm)
 		}
 	}
+	if kept := g.h.cache.VerifC13RawFailureLen(); kept < len(fired) {
+		g.h.r.Count("flood_evictions_observed", 1)
+		g.h.r.Max("flood_evicted_entries_max", int64(len(fired)-kept))
+	}
 	for i := 0; i < 6 && len(fired) > 0; i++ {
 		o := fired[g.rng.IntN(len(fired))]
 		g.h.Q(g.again(o, g.failPlan(), "after-flood"))
